@@ -11,6 +11,8 @@ from ..coqlit import cbool, clist, cnat, cpair
 INIT_VALUE = 10
 
 
+from .c14 import UnstorableValues      # a forced call whose value cannot be stored fails without touching the complete entry
+
 class Scheduler:
     """Threads stop at named points; the driver lets exactly one of them perform its next action."""
 
@@ -132,7 +134,8 @@ def run_schedule(case):
         assert all(t.parent == target.parent for t in targets)
         if case['init'] == 'full':
             for k, t in zip(keys, targets):
-                t.write_text(json.dumps({'key': k, 'value': INIT_VALUE}))
+                # as the library writes it (no spaces): an entry that a later, longer value does not fit into
+                t.write_text(json.dumps({'key': k, 'value': INIT_VALUE}, separators=(',', ':')))
         elif case.get('fresh_dir'):
             target.parent.rmdir()          # a key that was never used: its shard directory does not exist yet
         if case.get('leftover_tmp') and not case.get('fresh_dir'):
@@ -148,8 +151,7 @@ def run_schedule(case):
         Path.mkdir = pmkdir
 
         def load_value(self, filepath, k):
-            sched.point('load')
-            return orig_load(self, filepath, k)
+            return orig_load(self, filepath, k)      # the load step is the moment the entry is opened for reading (see popen)
 
         def preplace(self, dest):
             if Path(dest) in targets and getattr(sched.tls, 'tid', None) is not None:
@@ -160,6 +162,10 @@ def run_schedule(case):
             if self.parent == target.parent and 'w' in mode and getattr(sched.tls, 'tid', None) is not None:
                 sched.point('truncate')
                 return DeferredFile(sched, orig_open(self, mode, *a, **k))
+            if self in targets and 'w' not in mode and getattr(sched.tls, 'tid', None) is not None:
+                # the load step of the model is the moment a reader opens the entry: whatever it looked at before (its size,
+                # its age) may be out of date by then
+                sched.point('load')
             return orig_open(self, mode, *a, **k)
         tc.JsonCache.load_value = load_value
         Path.open = popen
@@ -305,6 +311,12 @@ Definition conc_model (c : fstate * list (kind * nat) * list nat) : list (option
                  script=[0, 0, 0, 1, 1, 1, 0, 0, 0, 0, 0, 2, 2, 2, 1, 1, 1, 2, 1, 1, 1]),
             dict(init='absent', callers=[dict(kind='goc', force=False), dict(kind='goc', force=False), dict(kind='goc', force=False)],
                  seed=9, script=[0, 0, 0, 1, 1, 1, 0, 0, 0, 0, 0, 2, 2, 2, 1, 1, 1, 2, 1, 1, 1]),
+            # a reader is about to open the entry when a forced writer publishes a longer one (INIT_VALUE has two digits, the
+            # computed values three)
+            dict(init='full', callers=[dict(kind='get'), dict(kind='goc', force=True)], seed=31,
+                 script=[0, 0] + [1] * 12 + [0] * 4),
+            dict(init='full', callers=[dict(kind='goc', force=False), dict(kind='goc', force=True)], seed=32,
+                 script=[0, 0] + [1] * 12 + [0] * 4),
             # a caller asks for the entry lock while another caller holds it - for its existence check, and for its
             # computation and write: it waits, however long that takes
             dict(init='absent', callers=[dict(kind='goc', force=False), dict(kind='get')], seed=11, script=[0, 1, 1, 1, 0, 1]),
@@ -633,7 +645,7 @@ class OwnCacheClasses(Suite):
 
 class C15(Prop):
     pid = 'C15'
-    suites = [Schedules(), RealThreads(), OwnCacheClasses()]
+    suites = [Schedules(), RealThreads(), OwnCacheClasses(), UnstorableValues()]
     known_classes = {'unlocked-load-window': window_class}
     trusted_base = ['filelock is replaced by a cooperative lock in the correspondence: mutual exclusion of the real '
                     'FileLock is trusted; processes, flock semantics and chunked reads of large files are not modelled (partial)',
